@@ -148,9 +148,9 @@ def check(model, rep, tier):
           flat(x.left)
           flat(x.right)
         else:
-          parts.append(tpl.xnorm(h, x, calls[0]))
+          parts.append(core.norm(x))
 
-      flat(calls[0].args[1])
+      flat(tpl.expand(h, calls[0].args[1], calls[0]))
       for t in parts:
         for k in ('BODY_SCOPE', 'ORELSE_SCOPE', 'ITERATE_SCOPE'):
           if t == 'anno.getanno(%s, annos.NodeAnno.%s).bound' % (hp, k):
@@ -204,8 +204,16 @@ def check(model, rep, tier):
           core.norm(c.func) == 'self._get_block_vars']
     asg = [n for n in ast.walk(h.node) if isinstance(n, ast.Assign) and gb and
            n.value is gb[0]]
-    ok = len(nl) == 1 and len(asg) == 1 and isinstance(asg[0].targets[0], ast.Tuple) \
-        and core.norm(nl[0].args[0]) == core.norm(asg[0].targets[0].elts[0])
+    ok = len(nl) == 1 and len(asg) == 1 and isinstance(asg[0].targets[0], ast.Tuple)
+    if ok:
+      # the declared list is the state list, or a list computed from it (a
+      # superset: names the test binds are added)
+      d_, s_ = core.norm(nl[0].args[0]), core.norm(asg[0].targets[0].elts[0])
+      if d_ != s_:
+        ds_ = tpl.rdefs(h.node).reaching(nl[0], d_) if isinstance(
+            nl[0].args[0], ast.Name) else None
+        ok = bool(ds_) and len(ds_) == 1 and isinstance(ds_[0], ast.AST) and any(
+            isinstance(x, ast.Name) and x.id == s_ for x in ast.walk(ds_[0]))
     used = [s for s in sites if s.fi.node is h.node and 'nonlocal_declarations' in s.kwargs]
     ok = ok and bool(used)
     for u in used:
